@@ -436,9 +436,21 @@ func c08Run(tier, shard string, r *mc.Reporter) {
 	}
 	sh, _ := strconv.Atoi(strings.TrimPrefix(shard, "real:"))
 	e := &c08env{r: r, face: &font.Face{}, face2: &font.Face{}, seqs: map[string]bool{}}
+	total := 0
+	for l := 1; l <= c08MaxLen(tier); l++ {
+		p := 1
+		for k := 0; k < l; k++ {
+			p *= len(c08Alphabet)
+		}
+		total += p
+	}
+	block := (total + wrapShards - 1) / wrapShards
 	enumTexts(c08Alphabet, 1, c08MaxLen(tier), func(idx int, t []rune) bool {
-		if idx%wrapShards != sh {
+		if idx/block < sh {
 			return true
+		}
+		if idx/block > sh {
+			return false
 		}
 		if r.Expired() {
 			r.Incomplete(fmt.Sprintf("deadline at text #%d", idx))
